@@ -66,7 +66,9 @@ impl<const LIMBS: usize> Uint<LIMBS> {
         // The inverse exists either if `k` is 0 or if `self` is odd.
         let is_some = ConstChoice::from_u32_nonzero(k).not().or(self.is_odd());
 
-        while i < k {
+        // Bits at positions `>= Self::BITS` do not exist in the result: for `k > Self::BITS`
+        // the inverse mod `2^k` truncated to this width is the inverse mod `2^Self::BITS`.
+        while i < k && i < Self::BITS {
             // X_i = b_i mod 2
             let x_i = b.limbs[0].0 & 1;
             let x_i_choice = ConstChoice::from_word_lsb(x_i);
@@ -75,7 +77,7 @@ impl<const LIMBS: usize> Uint<LIMBS> {
             // Store the X_i bit in the result (x = x | (1 << X_i))
             let shifted = Uint::from_word(x_i)
                 .overflowing_shl_vartime(i)
-                .expect("shift within range");
+                .unwrap_or(Self::ZERO);
             x = x.bitor(&shifted);
 
             i += 1;
